@@ -722,3 +722,53 @@ Qed.
 Corollary gparse_enc_height t v rest n h :
   wt t v = true -> gparse t (enc v ++ rest) = Ok (n, h) -> n = len (enc v) /\ h = ch v.
 Proof. intros Hw H. rewrite (gparse_enc t v rest Hw) in H. apply ok_pair_inj in H. intuition. Qed.
+
+(* ---------- well-typed trees: type byte, byte range ---------- *)
+Lemma wt_tyof t v : wt t v = true -> t = tyof v.
+Proof.
+  destruct v; cbn [wt tyof]; intros H; wt_split H; apply N.eqb_eq in H; exact H.
+Qed.
+
+Lemma tyof_lt v : tyof v < 256.
+Proof. destruct v; cbn [tyof]; reflexivity. Qed.
+
+Lemma wt_lt256 t v : wt t v = true -> t < 256.
+Proof. intros H. rewrite (wt_tyof t v H). apply tyof_lt. Qed.
+
+Lemma wf_app a b : wf a -> wf b -> wf (a ++ b).
+Proof. intros Ha Hb. apply Forall_app. split; assumption. Qed.
+
+Lemma wf_concat {A} (f : A -> bytes) l : Forall (fun x => wf (f x)) l -> wf (concat (map f l)).
+Proof.
+  induction 1 as [|x l Hx _ IH]; cbn [map concat]; [constructor|]. apply wf_app; assumption.
+Qed.
+
+Lemma wf_cons1 x l : x < 256 -> wf l -> wf (x :: l).
+Proof. intros Hx Hl. constructor; assumption. Qed.
+
+Lemma enc_wf : forall v t, wt t v = true -> wf (enc v).
+Proof.
+  induction v using value_ind'; intros t Hwt; cbn [wt] in Hwt; wt_split Hwt; cbn [enc];
+    try apply be_wf.
+  - apply wf_cons1; [lia|constructor].
+  - apply wf_cons1; [lia|constructor].
+  - apply wf_app; [apply be_wf|]. apply wfbb_wf. assumption.
+  - change (wf (concat (map encf fs) ++ [T_STOP])).
+    apply wf_app; [|apply wf_cons1; [reflexivity|constructor]].
+    apply wf_concat. rewrite Forall_forall in *. rewrite forallb_forall in Hw.
+    intros [[ft id] fv] Hin. specialize (H _ Hin). specialize (Hw _ Hin). cbn [fst snd] in *.
+    wt_split Hw. assert (Hwf : wt ft fv = true) by assumption.
+    cbn [encf]. apply wf_cons1; [lia|]. apply wf_app; [apply be_wf|]. exact (H ft Hwf).
+  - apply wf_cons1; [lia|]. apply wf_cons1; [lia|]. apply wf_app; [apply be_wf|].
+    change (wf (concat (map encp kvs))).
+    apply wf_concat. rewrite Forall_forall in *. rewrite forallb_forall in Hw.
+    intros [k v] Hin. destruct (H _ Hin) as [Hk Hv]. specialize (Hw _ Hin). cbn [fst snd] in *.
+    wt_split Hw. assert (Hwk : wt kt k = true) by assumption. assert (Hwv : wt vt v = true) by assumption.
+    cbn [encp]. apply wf_app; [exact (Hk kt Hwk)|exact (Hv vt Hwv)].
+  - apply wf_cons1; [lia|]. apply wf_app; [apply be_wf|].
+    apply wf_concat. rewrite Forall_forall in *. rewrite forallb_forall in Hw.
+    intros v Hin. exact (H v Hin et (Hw v Hin)).
+  - apply wf_cons1; [lia|]. apply wf_app; [apply be_wf|].
+    apply wf_concat. rewrite Forall_forall in *. rewrite forallb_forall in Hw.
+    intros v Hin. exact (H v Hin et (Hw v Hin)).
+Qed.
